@@ -81,9 +81,14 @@ SrcOk(id, src) == src = "typed" \/ id \notin {"str", "stropts"}
 Srcs == {"typed", "text"}
 
 \* --------------------------------------------------------------- JSON forms
+\* Field keys.  "exact" is the key written in the tag and used by every API except conf.Load*;
+\* "snake" / "initial" are the respellings conf.Load* additionally accepts.  The tag keys themselves
+\* come in the spellings users write: lowerCamel, snake_case, Upper-initial, mixed.
 Names == [a |-> [exact |-> "alphaKey", snake |-> "alpha_key", initial |-> "AlphaKey"],
-          b |-> [exact |-> "betaKey", snake |-> "beta_key", initial |-> "BetaKey"],
-          s |-> [exact |-> "subPart", snake |-> "sub_part", initial |-> "SubPart"]]
+          b |-> [exact |-> "user_name", snake |-> "user_name", initial |-> "User_name"],
+          s |-> [exact |-> "Level", snake |-> "level", initial |-> "level"],
+          x |-> [exact |-> "X_Token", snake |-> "x_token", initial |-> "x_Token"]]
+NameIds == {"a", "b", "s", "x"}
 
 LitJ(l) == [text |-> l.text, class |-> l.class]
 DocJ(doc) == IF doc.d = "absent" THEN [d |-> "absent"] ELSE [d |-> "lit", text |-> doc.lit.text, class |-> doc.lit.class]
@@ -113,6 +118,21 @@ SingleInit ==
 SingleCase(i) ==
   LET f == F1(i)
   IN CaseJ("single", i.src, DocYaml(i.doc), <<PrimJ("a", i.k, i.ptr, f.o, i.doc, f.out)>>, <<f.out>>)
+
+\* --------------------------------------------------------------- family: history
+\* One field whose key is spelt in each of the ways of Names; the driver first loads a config
+\* (conf.Load*, which installs its key canonicalisation) and only then makes the option-less calls
+\* (UnmarshalJsonBytes, UnmarshalKey, UnmarshalYamlBytes, httpx.Parse with a JSON body).  The allowed
+\* set is that of the single call (AllowedAgain): what was loaded before changes nothing.
+HistInit ==
+  \E n \in NameIds, k \in Kinds, id \in OptIds, ptr \in BOOLEAN, doc \in DocsOf(LitIdx) :
+     /\ Applicable(id, k)
+     /\ inp = [family |-> "history", src |-> "typed", n |-> n, k |-> k, id |-> id, ptr |-> ptr, doc |-> doc]
+
+HistCase(i) ==
+  LET o == OptFor(i.id, i.k)
+      a == AllowedAgain(i.k, o, i.doc, "typed")
+  IN CaseJ("history", "typed", DocYaml(i.doc), <<PrimJ(i.n, i.k, i.ptr, o, i.doc, a)>>, <<a>>)
 
 \* --------------------------------------------------------------- family: pair / embedded
 \* two top-level fields; "embedded" puts the second one into an anonymous struct (same document)
@@ -276,7 +296,7 @@ RTCase(i) ==
   LET fp == RTField("a", "path", i.kp, Lits[i.lp])
       ff == RTField("b", "form", i.kf, Lits[i.lf])
       fh == RTField("s", "header", i.kh, Lits[i.lh])
-      fj == [RTField("a", "json", i.kj, Lits[i.lj]) EXCEPT !.name = [exact |-> "gammaKey", snake |-> "gamma_key", initial |-> "GammaKey"]]
+      fj == RTField("x", "json", i.kj, Lits[i.lj])
   IN CaseJ("roundtrip", "typed", TRUE, <<fp, ff, fh, fj>>, <<fp.out, ff.out, fh.out, fj.out>>)
 
 \* --------------------------------------------------------------- family: axioms
@@ -297,6 +317,7 @@ Init ==
     [] Family = "roundtrip" -> RTInit
     [] Family = "axioms" -> inp = [family |-> "axioms"]
     [] Family = "twice" -> TwiceInit
+    [] Family = "history" -> HistInit
 
 Next == UNCHANGED inp
 Spec == Init /\ [][Next]_inp
@@ -309,6 +330,7 @@ CaseOf(i) ==
     [] i.family = "roundtrip" -> RTCase(i)
     [] i.family = "axioms" -> AxiomsCase
     [] i.family = "twice" -> ContCase(i)
+    [] i.family = "history" -> HistCase(i)
 
 Emit == PrintT(ToJson(CaseOf(inp)))
 
@@ -326,7 +348,7 @@ SaneField(k, o, doc, src) ==
 
 Sane ==
   /\ T_PointsOrdered
-  /\ inp.family \in {"single", "pair", "embedded", "nested", "inherit"} =>
+  /\ inp.family \in {"single", "pair", "embedded", "nested", "inherit", "history"} =>
         SaneField(inp.k, OptFor(inp.id, inp.k), inp.doc, inp.src)
   /\ inp.family \in {"pair", "embedded", "nested"} =>
         SaneField(inp.k2, OptFor(inp.id2, inp.k2), inp.doc2, inp.src)
